@@ -69,8 +69,12 @@ def subsets(all_):
 
 
 def trace_variant(desc, tier):
-    """With trace logging enabled: the reconnect part and the histories starting with every third segment kind."""
-    return desc["part"] == "reconnect" or (desc["part"] == "hist" and not desc.get("all_subsets") and desc["first"] % 3 == 0)
+    """With trace logging enabled: the reconnect part and all histories one level shallower."""
+    if desc["part"] == "reconnect":
+        return True
+    if desc["part"] == "hist" and not desc.get("all_subsets"):
+        return {"depth": desc["depth"] - 1}
+    return False
 
 
 def tasks(tier, seed):
